@@ -30,3 +30,7 @@ ASSUMPTIONS = [
 
 # dimensions added in seeded rounds 6 and 7
 PROBES = list(PROBES) + ["output-path-held-a-longer-file"]
+
+# dimensions added in seeded round 9
+PROBES = list(PROBES) + ["tuning-constant-lowered"]
+ASSUMPTIONS = list(ASSUMPTIONS) + ["module-level ALL-CAPS int constants >= 4096 of pure-Python sigpyproc modules are tuning thresholds: lowered to 257/1000/4099 in a quarter of the runs (also where bound as default arguments); the pinned tree has none"]
